@@ -33,9 +33,16 @@ def mc_router(pool, name=None):
             'invariants': MC_INV, 'properties': MC_PROPS}
 
 
-def gen_bfs(pool, depth, name=None, extra='NoExtra', props=None, limit=None):
-    return {'kind': 'gen', 'name': name or ('bfs%s%d' % (pool, depth)), 'module': 'MC_Router', 'subst': sub(pool, CaseExtra=extra),
-            'consts': {'Depth': depth, 'EmitAll': 'TRUE', 'Battery': '"last"'}, 'trace': 'Trace_Router', 'props': props, 'limit': limit}
+def gen_bfs(pool, depth, name=None, extra='NoExtra', props=None, limit=None, sample=None, module='MC_Router', consts=None):
+    c = {'Depth': depth, 'EmitAll': 'TRUE', 'Battery': '"last"'}
+    c.update(consts or {})
+    return {'kind': 'gen', 'name': name or ('bfs%s%d' % (pool, depth)), 'module': module, 'subst': sub(pool, CaseExtra=extra),
+            'consts': c, 'trace': 'Trace_Router', 'props': props, 'limit': limit, 'sample': sample}
+
+
+def gogen(mode, n, name=None, props=None, seedoff=0):
+    return {'kind': 'gogen', 'name': name or ('go-' + mode), 'fam': 'router', 'mode': mode, 'n': n, 'trace': 'Trace_Router', 'props': props,
+            'seedoff': seedoff, 'min_per_shard': 2}
 
 
 def gen_sim(pool, depth, num, name=None, extra='NoExtra', props=None, seedoff=0):
@@ -57,8 +64,59 @@ def p_smoke(q):
     return [mc_router('T'), gen_bfs('T', 2 if q else 3, props=ALL), gen_sim('T', 6, 50, props=ALL)]
 
 
+def p_dbg(pool, depth):
+    def f(q):
+        ALL = ['C01','C02','C03','C04','C05','C08','C09','C10','C13','C17','C18','C19']
+        if os.environ.get('DBG_PROPS'):
+            ALL = os.environ['DBG_PROPS'].split(',')
+        return [gen_bfs(pool, depth, props=ALL)]
+    return f
+
+
+def p_c01(q):
+    if q:
+        return [mc_router('T'), gen_bfs('A', 2, sample=0.35), gen_bfs('B', 1), gen_sim('A', 8, 12), gogen('bytes', 60)]
+    return [mc_router('T'), mc_router('C', 'routerC'), gen_bfs('A', 2), gen_bfs('B', 2), gen_bfs('C', 2), gen_bfs('X', 2, sample=0.3),
+            gen_sim('A', 12, 60), gen_sim('B', 12, 40, seedoff=1), gogen('bytes', 1500), gogen('mixed', 800, seedoff=1)]
+
+
+def p_c02(q):
+    if q:
+        return [mc_router('T'), gen_bfs('O', 4, module='MC_RouterO', consts={'L': 4}), gogen('addonly', 80)]
+    return [mc_router('T'), gen_bfs('O', 4, module='MC_RouterO', consts={'L': 5}), gen_bfs('O', 2, name='bfsO2L6', module='MC_RouterO', consts={'L': 6}),
+            gogen('addonly', 2000)]
+
+
+def p_c03(q):
+    if q:
+        return [mc_router('T'), gen_bfs('B', 2, sample=0.25), gen_bfs('C', 2, sample=0.5), gen_bfs('X', 1), gen_sim('B', 8, 10), gogen('mixed', 40)]
+    return [mc_router('T'), mc_router('C', 'routerC'), gen_bfs('A', 2), gen_bfs('B', 2), gen_bfs('C', 2), gen_bfs('X', 2, sample=0.3),
+            gen_sim('A', 14, 60), gen_sim('B', 14, 60, seedoff=1), gen_sim('C', 14, 40, seedoff=2), gogen('mixed', 1500)]
+
+
+def p_c04(q):
+    if q:
+        return [mc_router('T'), gen_bfs('C', 2), gen_bfs('X', 2, sample=0.08), gen_sim('C', 8, 10)]
+    return [mc_router('T'), mc_router('C', 'routerC'), gen_bfs('C', 3, sample=0.4), gen_bfs('X', 2, sample=0.4), gen_bfs('A', 2, sample=0.5),
+            gen_sim('C', 14, 80), gogen('mixed', 1000)]
+
+
+def p_c05(q):
+    if q:
+        return [mc_router('T'), gen_bfs('X', 2, sample=0.08), gen_bfs('B', 2, sample=0.15), gogen('bytes', 100)]
+    return [mc_router('T'), gen_bfs('X', 2, sample=0.5), gen_bfs('B', 2), gen_bfs('A', 2, sample=0.5), gogen('bytes', 3000), gogen('mixed', 1000, seedoff=1)]
+
+
+def p_c17(q):
+    if q:
+        return [mc_router('T'), gen_bfs('X', 2, sample=0.12, extra='BaseExtra'), gen_bfs('A', 1, extra='BaseExtra'), gogen('mixed', 40)]
+    return [mc_router('T'), gen_bfs('X', 2, extra='BaseExtra'), gen_bfs('A', 2, sample=0.5, extra='BaseExtra'), gen_bfs('C', 2, extra='BaseExtra'),
+            gen_sim('X', 10, 80), gogen('mixed', 1500)]
+
+
 ROUTER_PLANS = {
-    'T00': p_smoke,
+    'C01': p_c01, 'C02': p_c02, 'C03': p_c03, 'C04': p_c04, 'C05': p_c05, 'C17': p_c17,
+    'T00': p_smoke, 'TA': p_dbg('A', 2), 'TB': p_dbg('B', 2), 'TC': p_dbg('C', 2), 'TX': p_dbg('X', 2),
 }
 
 
